@@ -95,3 +95,61 @@ func indexOf(ks []PrivateKeyI, k PrivateKeyI) int {
 	}
 	return 0
 }
+
+// TestVerifBoundedC05Cache (labelled bounded, NOT a proof): the process-wide signature cache answers "already verified"
+// for a (key, message, signature) triple - every verifier and the batch verifier trust a hit. After a VALID triple was
+// verified (and cached), the same key and signature presented with ANY other message must still be rejected, whatever
+// the message length and wherever the difference sits: messages of 1..600 bytes (below and above a signature's length
+// and well beyond any fixed-size buffer), altered in the first byte, the middle, the last byte, or by one byte more /
+// less. The cache key function is also compared directly on those pairs.
+func TestVerifBoundedC05Cache(t *testing.T) {
+	seed, _ := strconv.ParseInt(os.Getenv("VERIF_SEED"), 10, 64)
+	rng := rand.New(rand.NewSource(seed + 55))
+	mk := []func() (PrivateKeyI, error){NewEd25519PrivateKey, NewSECP256K1PrivateKey, NewETHSECP256K1PrivateKey, NewBLS12381PrivateKey}
+	lengths := []int{1, 2, 31, 32, 33, 63, 64, 65, 95, 96, 97, 120, 200, 239, 240, 241, 255, 256, 257, 287, 288, 289, 383, 384, 385, 500, 600}
+	evals, viol := 0, 0
+	for ty := range mk {
+		key, err := mk[ty]()
+		if err != nil {
+			t.Fatal(err)
+		}
+		pub := key.PublicKey()
+		for _, n := range lengths {
+			msg := make([]byte, n)
+			rng.Read(msg)
+			sig := key.Sign(msg)
+			if !pub.VerifyBytes(msg, sig) {
+				t.Fatalf("a fresh valid signature does not verify (type %d, len %d)", ty, n)
+			}
+			variants := map[string][]byte{}
+			for name, pos := range map[string]int{"first": 0, "middle": n / 2, "last": n - 1} {
+				m := append([]byte(nil), msg...)
+				m[pos] ^= 0x01
+				variants[name] = m
+			}
+			variants["longer"] = append(append([]byte(nil), msg...), 0x00)
+			if n > 1 {
+				variants["shorter"] = append([]byte(nil), msg[:n-1]...)
+			}
+			for name, m := range variants {
+				evals++
+				if pub.VerifyBytes(m, sig) {
+					viol++
+					if viol <= 3 {
+						fmt.Printf("BOUNDED-VIOLATION kind=cachehit keytype=%d msglen=%d variant=%s: after the valid triple was verified, the SAME signature is accepted for a different message\n", ty, n, name)
+					}
+				}
+				evals++
+				a := BatchTuple{PublicKey: pub, Message: msg, Signature: sig}
+				b := BatchTuple{PublicKey: pub, Message: m, Signature: sig}
+				if a.Key() == b.Key() {
+					viol++
+					if viol <= 3 {
+						fmt.Printf("BOUNDED-VIOLATION kind=cachekey keytype=%d msglen=%d variant=%s: two different messages under one key and signature share a cache key\n", ty, n, name)
+					}
+				}
+			}
+		}
+	}
+	fmt.Printf("BOUNDED-SUMMARY name=c05_cache evaluations=%d distinct_nontrivial=%d violations=%d bound=keytypes:4,msglens:%d(1..600),variants:5,seed:%d\n", evals, evals, viol, len(lengths), seed)
+}
